@@ -54,7 +54,7 @@ let parse (s : string) : Model.arg =
   in
   item ()
 
-let print_bytes (b : Model.bytes) =
+let print_bytes (b : Model.n list) =
   let buf = Buffer.create 256 in
   List.iter (fun x -> Buffer.add_char buf (Char.chr (int_of_n x land 255))) b;
   print_string (Buffer.contents buf);
